@@ -123,6 +123,8 @@ func scnBlock(rng *rand.Rand, rows int) *ref.Block {
 	return b
 }
 
+var errCloseNotify = errors.New("sim: close_notify: broken pipe")
+
 // runScenario executes the scenario with an optional fault. mkCtx lets callers supply the context.
 func runScenario(sc scn, seed int64, f *fault, readTimeout time.Duration, baseCtx func() (context.Context, context.CancelFunc)) *runOut {
 	return runScenarioWith(sc, seed, f, readTimeout, baseCtx, nil)
@@ -135,6 +137,10 @@ func runScenarioWith(sc scn, seed int64, f *fault, readTimeout time.Duration, ba
 	counts := map[string]int{}
 	script := &simnet.Script{Rev: 54460}
 	sim := newSim(script)
+	if seed%2 == 1 {
+		// a transport whose Close reports an error (tls close_notify to a dead peer)
+		sim.Conn.CloseErr = errCloseNotify
+	}
 	out.Sim = sim
 	compressed := sc.Comp != ch.CompressionDisabled
 	ctx, cancel := baseCtx()
